@@ -424,6 +424,9 @@ def build(cfg):
             base = types.new_class("Base", (csr.Register,), {}, lambda d: d.update(bns))
             base(access="rw")
         cls = types.new_class("Reg", (base,), kw, lambda d: d.update(ns))
+        if cfg["annot"] is not None and len(repr(cfg["annot"])) % 5 == 1:
+            # a further subclass that declares nothing of its own: it has the layout it inherits
+            cls = types.new_class("RegVariant", (cls,), {}, lambda d: None)
     else:
         cls = csr.Register
     args = {}
